@@ -46,3 +46,75 @@ TRUSTED = [
     "virtual dispatch of __hash__/__eq__/compare modelled by a switch on type_code_ (vtable not modelled)",
     "class data layout: stubs carry the same data members as the real headers (i; real_, imaginary_)",
 ]
+
+# ---- composite classes (unit 'composite', shared by C01 and C02) -------------------------------------------------
+CTOK = [
+    R(r'RCP<const Basic>', 'RCPBasic', n='*', why="RCP<const Basic> -> raw pointer typedef"),
+    R(r'is_a<(\w+)>\(', r'is_a_\1(', n='*', regex=True, why="template syntax -> stub predicate on type_code_"),
+    R(r'down_cast<const (\w+) &>\(', r'as_\1(', n='*', regex=True, why="checked downcast -> stub accessor"),
+    R(r'\) const override\b', ') const', n='*', regex=True, why="'override' is rejected by the front end"),
+]
+
+def _inclass(relpath, cls_regex, member_regex, name):
+    """select one in-class member definition from the class body region"""
+    return Piece(relpath, cls_regex, region_end=r'^\};',
+                 rules=[R(r'\A.*?(\n    (?:inline )?' + member_regex + r'\s*\{.*?\n    \}).*\Z', r'\1\n', n=1, regex=True,
+                          why="select the in-class definition of %s from the class body" % name)] + CTOK, name=name)
+
+def composite_pieces():
+    FH = 'symengine/functions.h'
+    two = [_inclass(FH, r'class TwoArgBasic : public BaseClass', sig, 'TwoArgBasic::' + nm) for sig, nm in (
+        (r'hash_t __hash__\(\) const override', '__hash__'), (r'RCP<const Basic> get_arg1\(\) const', 'get_arg1'), (r'RCP<const Basic> get_arg2\(\) const', 'get_arg2'),
+        (r'bool __eq__\(const Basic &o\) const override', '__eq__'), (r'int compare\(const Basic &o\) const override', 'compare'))]
+    one = [_inclass(FH, r'class OneArgFunction : public Function', sig, 'OneArgFunction::' + nm) for sig, nm in (
+        (r'hash_t __hash__\(\) const override', '__hash__'), (r'RCP<const Basic> get_arg\(\) const', 'get_arg'),
+        (r'bool __eq__\(const Basic &o\) const override', '__eq__'), (r'int compare\(const Basic &o\) const override', 'compare'))]
+    comp = []
+    for cls, f in (('Pow', 'pow.cpp'), ('Interval', 'sets.cpp')):
+        comp.append(Piece('symengine/' + f, r'hash_t %s::__hash__\(\) const' % cls, rules=CTOK))
+        comp.append(Piece('symengine/' + f, r'bool %s::__eq__\(const Basic &o\) const' % cls, rules=CTOK))
+    comp.append(Piece('symengine/pow.cpp', r'int Pow::compare\(const Basic &o\) const', rules=CTOK))
+    comp.append(Piece('symengine/sets.cpp', r'int Interval::compare\(const Basic &s\) const',
+                      rules=[R('auto temp = start_->__cmp__', 'int temp = start_->__cmp__', n=1, why="auto -> int (the return type of __cmp__)")] + CTOK))
+    comp.append(Piece('symengine/add.cpp', r'hash_t Add::__hash__\(\) const',
+                      rules=[R('for (const auto &p : dict_) {', 'for (unsigned p__k = 0; p__k < dict_.size(); p__k++) { umap_pair p = dict_.at(p__k);', n=1,
+                               why="range-for over the unordered term dictionary -> index loop over the stub (iteration order is an arbitrary permutation), body verbatim")] + CTOK))
+    comp.append(Piece('symengine/add.cpp', r'bool Add::__eq__\(const Basic &o\) const', rules=CTOK))
+    free = [Piece('symengine/basic-inl.h', r'inline hash_t Basic::hash\(\) const'),
+            Piece('symengine/basic-inl.h', r'inline bool eq\(const Basic &a, const Basic &b\)'),
+            Piece('symengine/basic-inl.h', r'inline bool neq\(const Basic &a, const Basic &b\)')]
+    base_impl = r'template <typename T>\s*inline void hash_combine_impl\(\s*hash_t &seed, const T &v,\s*typename std::enable_if<std::is_base_of<Basic, T>::value>::type \* = nullptr\)'
+    hcb = [Piece('symengine/basic-inl.h', base_impl,
+                 rules=[R(base_impl, 'inline void hash_combine_impl(hash_t &seed, const Basic &v)', n=1, regex=True,
+                          why="SFINAE template header -> the instantiation T=Basic")], name="hash_combine_impl<Basic>")]
+    hc = [p for p in hc_pieces()]
+    integral = r'template <typename T>\s*inline void hash_combine_impl\(\s*hash_t &seed, const T &v,\s*typename std::enable_if<std::is_integral<T>::value>::type \* = nullptr\)'
+    hc.insert(2, Piece('symengine/basic-inl.h', integral,
+                       rules=[R(integral, 'inline void hash_combine_impl(hash_t &seed, const bool &v)', n=1, regex=True, why="SFINAE template header -> the instantiation T=bool (Interval flags)")],
+                       name="hash_combine_impl<bool>"))
+    return {'hc.inc': hc, 'hcb.inc': hcb, 'free.inc': free, 'twoarg_inline.inc': two, 'onearg_inline.inc': one, 'comp.inc': comp}
+
+COMP_TRUSTED = [
+    "children of a composite are abstract objects obeying the contract C01/C02 state for every expression (eq <=> equal rank; equal rank => equal hash; __cmp__ = order of ranks)",
+    "Add's unordered term dictionary is a stub of at most 2 pairs iterated in an arbitrary order; unified_eq = equality as sets of pairs under eq (assumed contract of std::unordered_map ==)",
+    "virtual dispatch and the BaseClass template parameter of TwoArgBasic are modelled by a switch on the class under test",
+]
+
+def composite_unit(prop, Unit, Entry):
+    ents = []
+    for cls, nm in ((1, 'Pow'), (2, 'Interval'), (3, 'TwoArgBasic'), (4, 'OneArgFunction'), (5, 'Add')):
+        h = 'h_comp_c01' if prop == 'C01' else 'h_comp_c02'
+        if prop == 'C02' and cls == 5:
+            continue
+        d = {'CLS': cls, 'CLSNAME': '"%s"' % nm}
+        if cls == 5:
+            # the 64-bit mixing of Add::__hash__ (xor of per-term combined hashes) does not finish within 600 s on any back end:
+            # bounded stand-in with hash_t narrowed to 16 bits (which fields feed the hash is what eq => hash depends on, not the width)
+            d['VERIF_HASH_BITS16'] = 1
+            ents.append(Entry(h, defines=d, route='B', timeout=900, mem_gb=6, unwind=8, label="%s_%s" % (h, nm),
+                              bounds="hash_t narrowed to 16 bits; at most 2 terms in the dictionary (either iteration order); any children (6 abstract objects, any sharing)"))
+            continue
+        ents.append(Entry(h, defines=d, route='F', timeout=600, mem_gb=6, unwind=8,
+                          bounds="full domain: any children (6 abstract objects, any sharing/aliasing), any flags", label="%s_%s" % (h, nm)))
+    return Unit('composite', prop, 'contracts/common/composite.cpp', composite_pieces(), ents, route='F', trusted=COMP_TRUSTED,
+                assumptions=["Mul, function classes with more than two arguments, sets other than Interval, booleans, polynomials and matrices are not under contract"])
